@@ -188,6 +188,7 @@ func (q *DownType) checkTypeLabels(labelledTypesEnv LabelledTypesEnv) error {
 // -> type E = C
 // where the the D is non-contractive
 func (q *LabelType) isContractive(labelledTypesEnv LabelledTypesEnv, snapshots map[string]bool) bool {
+	vhTy(3)
 
 	presentSnapshot := q.String()
 
